@@ -454,6 +454,10 @@ func (a fuArrStr) MarshalLogArray(e zapcore.ArrayEncoder) error {
 }
 func (a fuArrStr) String() string { return "arr-and-stringer" }
 
+type fuPtrStr struct{ s string }
+
+func (p *fuPtrStr) String() string { return "ptr:" + p.s } // panics on a nil receiver
+
 type fuErrStr struct{ s string }
 
 func (e fuErrStr) Error() string  { return e.s }
@@ -838,6 +842,24 @@ func fuStructured(x *fuCtx) {
 	one("Objects", zap.Objects("k", []fuObj{{1}, {2}}), []recCall{{M: "AddArray", K: "k", Sub: []recCall{{M: "AppendObject", Sub: []recCall{{M: "AddInt", K: "a", V: 1}}}, {M: "AppendObject", Sub: []recCall{{M: "AddInt", K: "a", V: 2}}}}}})
 	one("ObjectValues", zap.ObjectValues("k", []fuObjPtr{{1}, {2}}), []recCall{{M: "AddArray", K: "k", Sub: []recCall{{M: "AppendObject", Sub: []recCall{{M: "AddInt", K: "v", V: 1}}}, {M: "AppendObject", Sub: []recCall{{M: "AddInt", K: "v", V: 2}}}}}})
 	one("Stringers", zap.Stringers("k", []fuErrStr{{"a"}, {"b"}}), []recCall{{M: "AddArray", K: "k", Sub: []recCall{{M: "AppendString", V: "str:a"}, {M: "AppendString", V: "str:b"}}}})
+	// nil elements (pointer and interface element types) at every position: rendered as <nil>, the others intact
+	for pos := 0; pos < 4; pos++ {
+		ptrs := []*fuPtrStr{{"a"}, {"b"}, {"c"}, {"d"}}
+		ifs := []fmt.Stringer{fuErrStr{"a"}, fuErrStr{"b"}, fuErrStr{"c"}, fuErrStr{"d"}}
+		wantP, wantI := []recCall{}, []recCall{}
+		for i := range ptrs {
+			if i == pos {
+				ptrs[i], ifs[i] = nil, (*fuPtrStr)(nil)
+				wantP = append(wantP, recCall{M: "AppendString", V: "<nil>"})
+				wantI = append(wantI, recCall{M: "AppendString", V: "<nil>"})
+			} else {
+				wantP = append(wantP, recCall{M: "AppendString", V: "ptr:" + ptrs[i].s})
+				wantI = append(wantI, recCall{M: "AppendString", V: "str:" + string(rune('a'+i))})
+			}
+		}
+		one("Stringers", zap.Stringers("k", ptrs), []recCall{{M: "AddArray", K: "k", Sub: wantP}})
+		one("Stringers", zap.Stringers("k", ifs), []recCall{{M: "AddArray", K: "k", Sub: wantI}})
+	}
 	one("Errors", zap.Errors("k", []error{e, nil, e}), []recCall{{M: "AddArray", K: "k", Sub: []recCall{{M: "AppendObject", Sub: []recCall{{M: "AddString", K: "error", V: "boom"}}}, {M: "AppendObject", Sub: []recCall{{M: "AddString", K: "error", V: "boom"}}}}}})
 	// an encoder that encodes another error array while it is being handed the elements of the first one:
 	// each array must still deliver its own errors (pooled element wrappers must not be shared)
